@@ -13,8 +13,10 @@ S2  the same runs dump (input, expected) states; every one is executed against t
                     read_alignment_from_cigar on specification-built CIGARs + write again
       * MCMsa    -> every complete merge history is forced through the real align_multiple
                     (guide tree = merge tree, distance matrix selecting the representatives,
-                    multiple.align_optimal rebound to answer with the recorded pairwise traces);
-                    the returned tuple is judged by TLC (Trace.tla, Post).
+                    multiple.align_optimal rebound to answer with the recorded pairwise traces),
+                    for every way of passing equal inputs as one and the same Sequence object
+                    (objs); the returned tuple and the caller's objects after the call are
+                    judged by TLC (Trace.tla, Post + InputsUnchanged).
 S3  seeded random alignments / option sets / CIGARs / sequence sets beyond the bounds are run
     through the real API, logged, and re-computed by TLC (Trace.tla).
 """
@@ -455,17 +457,56 @@ def tree_from_tokens(tokens, base=1):
     return Tree(root)
 
 
-def msa_event_from_result(inputs, res, merges):
+def msa_event_from_result(inputs, res, merges, objs, after):
+    """inputs = contents before the call, objs = sharing pattern of the input objects
+    (ProgressiveMsa!Dom_Objs), after = contents of the caller's objects after the call."""
     alignment, order, tree, _dist = res
     s, t = proj_aln(alignment)
     toks = tree_tokens(tree.root)
-    return {"op": "msa", "inputs": inputs, "merges": merges, "A": {"seqs": s, "tr": t},
+    return {"op": "msa", "inputs": inputs, "objs": objs, "after": after, "merges": merges, "A": {"seqs": s, "tr": t},
             "order": [int(x) for x in order], "leaves": [x for x in toks if x >= 0], "tree": toks}
 
 
-def run_forced_msa(lens, hist, final_tree):
-    """Force the real align_multiple through one behaviour of MCMsa. Returns an 'msa' event or
-    {'exc': ...}."""
+def no_sharing(n):
+    return list(range(1, n + 1))
+
+
+def shared_objects(inputs, objs, make):
+    """One Sequence object per label of objs (label = first position holding the object);
+    -> list with the SAME object at every position of a label."""
+    made = {}
+    out = []
+    for k, codes in enumerate(inputs):
+        lab = objs[k]
+        if lab not in made:
+            made[lab] = make(codes)
+        out.append(made[lab])
+    return out
+
+
+def _postorder_nodes(tokens):
+    """Merge-tree tokens (1-based leaves) -> leaf tuples of the inner nodes in post-order (the
+    order in which _progressive_align reaches its align_optimal call)."""
+    stack, out = [], []
+    for t in tokens:
+        if t >= 0:
+            stack.append((int(t),))
+        elif t == -1:
+            stack.append(None)
+        else:
+            kids = []
+            while stack[-1] is not None:
+                kids.append(stack.pop())
+            stack.pop()
+            node = tuple(x for kid in reversed(kids) for x in kid)
+            out.append(node)
+            stack.append(node)
+    return out
+
+
+def run_forced_msa(lens, hist, final_tree, objs=None):
+    """Force the real align_multiple through one behaviour of MCMsa (objs: which positions of
+    the input list hold one and the same Sequence object). Returns an 'msa' event."""
     import biotite.sequence as bs
     import biotite.sequence.align as al
     import biotite.sequence.align.multiple as mult
@@ -473,31 +514,55 @@ def run_forced_msa(lens, hist, final_tree):
     np = _np()
     alph = bs.Alphabet(list(range(64)))
     n = len(lens)
-    inputs = [[10 * (k + 1) + p for p in range(1, lens[k] + 1)] for k in range(n)]
-    seqs = []
-    for codes in inputs:
+    objs = [int(x) for x in objs] if objs else no_sharing(n)
+    inputs = [[10 * objs[k] + p for p in range(1, lens[k] + 1)] for k in range(n)]
+
+    def make(codes):
         s = bs.GeneralSequence(alph)
         s.code = np.array(codes, dtype=np.uint8)
-        seqs.append(s)
+        return s
+    seqs = shared_objects(inputs, objs, make)
     sm = np.full((64, 64), -1, dtype=np.int32)
     np.fill_diagonal(sm, 2)
     matrix = al.SubstitutionMatrix(alph, alph, sm)
     dist = np.full((n, n), 9.0)
     np.fill_diagonal(dist, 0.0)
-    table = {}
+    # the merge of the history that belongs to every inner node of the guide tree (a node is known
+    # by its leaf positions, so shared objects / equal contents cannot be confused), in the
+    # order in which the recursion of _progressive_align reaches them
+    member, node_merge = {k: (k,) for k in range(1, n + 1)}, {}
     for h in hist:
-        a, b = h["a"] - 1, h["b"] - 1
-        dist[a, b] = dist[b, a] = 1.0
-        table[(a, b)] = h["tr"]
+        a, b = int(h["a"]), int(h["b"])
+        dist[a - 1, b - 1] = dist[b - 1, a - 1] = 1.0
+        node = member[a] + member[b]
+        node_merge[node] = (a, b, h["tr"])
+        for m in node:
+            member[m] = node
+    expected = [node_merge[node] for node in _postorder_nodes(final_tree)]
+    positions = {}
+    for k in range(n):
+        positions.setdefault(objs[k], []).append(k + 1)
     calls = []
 
     def stub(s1, s2, _matrix, _gap=None, _term=None, max_number=1, **_kw):
-        def owner(s):
+        if len(calls) >= len(expected):
+            raise RuntimeError("align_optimal called more often than the guide tree has inner nodes")
+        a, b, tr = expected[len(calls)]
+
+        def seen_as(s, pos):
+            # the representative the code really passed, as far as its content tells (positions
+            # sharing one object / content cannot be told apart: the expected one is taken)
             c = [int(x) for x in s.code if int(x) < 64]
-            return c[0] // 10 - 1
-        a, b = owner(s1), owner(s2)
-        tr = table[(a, b)]
-        calls.append([a + 1, b + 1, tr])
+            cand = positions.get(c[0] // 10, []) if c else []
+            return pos if pos in cand or not cand else cand[0]
+        for side, s in ((0, s1), (1, s2)):
+            used = sum(1 for col in tr if col[side] != GAP)
+            if len(s.code) != used:
+                # the rows of the code are not the rows of the machine any more: answering would
+                # make _replace_gaps index out of bounds (boundscheck is off)
+                raise RuntimeError(f"align_optimal received a row of length {len(s.code)} for input {(a, b)[side]}, "
+                                   f"the merge history has {used}")
+        calls.append([seen_as(s1, a), seen_as(s2, b), tr])
         return [al.Alignment([s1, s2], np.array(tr, dtype=np.int64).reshape(len(tr), 2), 0)]
 
     orig = mult.align_optimal
@@ -507,7 +572,7 @@ def run_forced_msa(lens, hist, final_tree):
                                 guide_tree=tree_from_tokens(final_tree))
     finally:
         mult.align_optimal = orig
-    return msa_event_from_result(inputs, res, calls)
+    return msa_event_from_result(inputs, res, calls, objs, [proj_seq(x) for x in seqs])
 
 
 def exec_msa_states(item):
@@ -522,17 +587,18 @@ def exec_msa_states(item):
         if len(F) == 1:
             g = F[0]
             order = sorted(range(len(g["idx"])), key=lambda p: g["idx"][p])
-            finals.append({"lens": list(s["lens"]), "hist": s["hist"], "tree": g["tree"],
+            finals.append({"lens": list(s["lens"]), "objs": list(s["objs"]), "hist": s["hist"], "tree": g["tree"],
                            "rows": [g["rows"][p] for p in order]})
     for st in finals:
-        progress({"stage": "S2-msa", "lens": st["lens"], "hist": st["hist"]})
+        progress({"stage": "S2-msa", "lens": st["lens"], "objs": st["objs"], "hist": st["hist"]})
+        src = {"lens": st["lens"], "objs": st["objs"], "hist": st["hist"], "tree": st["tree"]}
         try:
-            ev = run_forced_msa(st["lens"], st["hist"], st["tree"])
+            ev = run_forced_msa(st["lens"], st["hist"], st["tree"], st["objs"])
         except Exception as e:  # noqa: BLE001
-            errors.append({"kind": "msa_forced", "what": "exception", "input": {"lens": st["lens"], "hist": st["hist"],
-                           "tree": st["tree"]}, "expected": "ok", "observed": f"{type(e).__name__}: {e}"})
+            errors.append({"kind": "msa_forced", "what": "exception", "input": src, "expected": "ok",
+                           "observed": f"{type(e).__name__}: {e}"})
             continue
-        ev["src"] = {"lens": st["lens"], "hist": st["hist"], "tree": st["tree"]}
+        ev["src"] = src
         # documented algorithm ("once a gap, always a gap"): exact rows, diagnostic only
         tr = ev["A"]["tr"]
         rows = None
@@ -694,8 +760,8 @@ def gen_s3_trace(item):
 def exec_msa_observed(item):
     """Every input set of MCMsaObs through the real align_multiple (default distances / tree)."""
     events, refused = [], 0
-    for inputs in item["sets"]:
-        ev = run_observed_msa([list(s) for s in inputs], False, -10, True, {})
+    for inputs, objs in item["sets"]:
+        ev = run_observed_msa([list(s) for s in inputs], False, -10, True, {}, objs=list(objs))
         if ev == "refused":
             refused += 1
         else:
@@ -712,14 +778,17 @@ def observe_msa(rng):
 
     np = _np()
     n = rng.randint(2, 8)
-    style = rng.choice(["identical", "related", "unrelated", "len1", "related"])
+    style = rng.choice(["identical", "related", "unrelated", "len1", "related", "duplicates"])
     protein = rng.random() < 0.4
     K = 20 if protein else 4
     base = [rng.randrange(K) for _ in range(rng.randint(1, 12))]
     inputs = []
+    pool_ = []                  # style "duplicates": a few related sequences, each drawn several times
     for _ in range(n):
         if style == "identical":
             s = list(base)
+        elif style == "duplicates" and len(pool_) >= 2 and rng.random() < 0.6:
+            s = list(rng.choice(pool_))
         elif style == "len1":
             s = [rng.randrange(K)] if rng.random() < 0.6 else list(base)
         elif style == "unrelated":
@@ -734,9 +803,15 @@ def observe_msa(rng):
                 if r > 0.95:
                     s.append(rng.randrange(K))
             s = s or [rng.randrange(K)]
+            pool_.append(s)
         inputs.append(s)
-    seqs = [mkseq(s, protein) for s in inputs]
-    matrix = al.SubstitutionMatrix.std_protein_matrix() if protein else al.SubstitutionMatrix.std_nucleotide_matrix()
+    # equal sequences may be passed as one and the same object (Dom_Objs: label = first position)
+    objs = no_sharing(n)
+    if rng.random() < 0.5:
+        for k in range(n):
+            same = [j for j in range(k) if inputs[j] == inputs[k]]
+            if same and rng.random() < 0.75:
+                objs[k] = objs[rng.choice(same)]
     gap = rng.choice([-10, -5, (-10, -1), (-6, -2)])
     term = rng.random() < 0.7
     kw = {}
@@ -761,19 +836,22 @@ def observe_msa(rng):
         kw["guide_tree"] = Tree(nodes[0])
         d = np.ones((n, n)) - np.eye(n)
         kw["distances"] = d
-    return run_observed_msa(inputs, protein, gap, term, kw)
+    return run_observed_msa(inputs, protein, gap, term, kw, objs=objs)
 
 
-def run_observed_msa(inputs, protein, gap, term, kw):
+def run_observed_msa(inputs, protein, gap, term, kw, objs=None):
     """Real align_multiple with a spy on multiple.align_optimal -> 'msa' event, 'msa_exc' event,
-    or "refused" (documented ValueError of the distance computation)."""
+    or "refused" (documented ValueError of the distance computation).  objs: sharing pattern of
+    the input objects (None = every input its own object)."""
     import biotite.sequence.align as al
     import biotite.sequence.align.multiple as mult
     from harness.tlabind.pool import progress
 
-    seqs = [mkseq(s, protein) for s in inputs]
+    n = len(inputs)
+    objs = [int(x) for x in objs] if objs else no_sharing(n)
+    seqs = shared_objects(inputs, objs, lambda codes: mkseq(codes, protein))
     matrix = al.SubstitutionMatrix.std_protein_matrix() if protein else al.SubstitutionMatrix.std_nucleotide_matrix()
-    progress({"stage": "msa", "inputs": inputs, "gap": gap, "term": term, "mode": sorted(kw)})
+    progress({"stage": "msa", "inputs": inputs, "objs": objs, "gap": gap, "term": term, "mode": sorted(kw)})
     seen = []
     orig = mult.align_optimal
 
@@ -796,16 +874,17 @@ def run_observed_msa(inputs, protein, gap, term, kw):
         return dict({"op": "msa_exc", "inputs": inputs, "exc": res}, **meta)
     alignment = res[0]
     owner = {id(s): k + 1 for k, s in enumerate(alignment.sequences)}
-    given = {id(s) for s in seqs}
+    # distance-matrix phase: exactly n (n + 1) / 2 alignments of the inputs themselves come first
+    # (none when `distances` is given); what follows are the merges.  (Not told apart by object
+    # identity: whether the rows of the merges are the caller's objects is what is being checked.)
+    ndist = 0 if "distances" in kw else n * (n + 1) // 2
     merges = []
-    for s1, s2, tr in seen:
-        if id(s1) in given or id(s2) in given:
-            continue                  # distance-matrix phase: alignments of the inputs themselves
+    for s1, s2, tr in seen[ndist:]:
         if id(s1) not in owner or id(s2) not in owner:
             merges = []
             break
         merges.append([owner[id(s1)], owner[id(s2)], tr])
-    ev = msa_event_from_result(inputs, res, merges)
+    ev = msa_event_from_result(inputs, res, merges, objs, [proj_seq(x) for x in seqs])
     ev.update(meta)
     return ev
 
@@ -879,16 +958,16 @@ def replay(record):
     if kind == "msa_forced":
         src = record["input"]
         try:
-            ev = run_forced_msa(src["lens"], src["hist"], src["tree"])
+            ev = run_forced_msa(src["lens"], src["hist"], src["tree"], src.get("objs"))
             return {"observed": ev, "mismatch": False, "note": "no exception now; validate with TLC via the check"}
         except Exception as e:  # noqa: BLE001
             return {"observed": f"{type(e).__name__}: {e}", "mismatch": True}
     if kind == "event":
         ev = record["event"]
         if ev["op"] == "msa" and "src" in ev:
-            new = run_forced_msa(ev["src"]["lens"], ev["src"]["hist"], ev["src"]["tree"])
-            same = all(new[k] == ev[k] for k in ("A", "order", "leaves"))
-            return {"observed": new, "recorded": {k: ev[k] for k in ("A", "order", "leaves")},
+            new = run_forced_msa(ev["src"]["lens"], ev["src"]["hist"], ev["src"]["tree"], ev["src"].get("objs"))
+            same = all(new[k] == ev[k] for k in ("A", "order", "leaves", "after"))
+            return {"observed": new, "recorded": {k: ev[k] for k in ("A", "order", "leaves", "after")},
                     "mismatch": same, "note": "mismatch=True means the recorded (rejected) output is reproduced"}
         return {"error": "event records are re-validated by running the check (TLC judges them)", "event": ev}
     return {"error": "unknown record kind", "record": record}
@@ -979,7 +1058,7 @@ FLAGS = {"helpers": HELPER_FLAGS, "index": ["outcome", "result", "valid_trace"],
          "cigar_w": ["outcome", "ops", "readback_inputs", "read_back"], "cigar_r": ["outcome", "trace"],
          "msa_exc": ["no_exception"],
          "msa": ["one_row_per_input_in_order", "valid_trace", "gap_stripped_rows_are_inputs", "order_is_permutation",
-                 "tree_has_every_input_once"]}
+                 "tree_has_every_input_once", "input_objects_unchanged", "sharing_pattern_valid"]}
 
 
 def _report(ctx, traces, mms, stage):
@@ -995,6 +1074,8 @@ def _report(ctx, traces, mms, stage):
         failed = [names[k] if k < len(names) else str(k) for k, ok in enumerate(flags) if not ok]
         if e["op"] == "cigar_w" and failed == ["readback_inputs"]:
             raise RuntimeError(f"C11 {stage}: driver chose read-back inputs that differ from the specification: {e}")
+        if e["op"] == "msa" and "sharing_pattern_valid" in failed:
+            raise RuntimeError(f"C11 {stage}: driver built a sharing pattern outside Dom_Objs: {e['inputs']} {e['objs']}")
         ctx.mismatch({"stage": stage, "kind": "event", "op": e["op"], "failed": failed, "expected": exp, "event": e})
         n += 1
     return n
@@ -1013,7 +1094,7 @@ def run(ctx):
         "Dom_Gapped / Dom_Names: FASTA alignments have >= 1 column, equal-length rows, distinct headers; symbols are compared as letters (sequence type given to get_alignment)",
         "score(): for more than two rows the code's definition is taken (sum of pairs + one gap penalty per row)",
         "remove_terminal_gaps with an empty overlap (start = stop): empty alignment or exception both accepted",
-        "align_multiple: verdict = postcondition of the property (rows, order permutation, tree leaves); exact gap placement of the documented algorithm is a diagnostic",
+        "align_multiple: verdict = postcondition of the property (rows, order permutation, tree leaves) for every way of passing equal sequences as one object (Dom_Objs), and the caller's sequence objects hold the same symbols after the call; exact gap placement of the documented algorithm is a diagnostic",
         "floats: identities compared with 1e-9; scores are integers",
         "trusted: TLC, the TLA+ value parser, the projections proj_aln / tree_tokens, numpy",
     ]
@@ -1070,7 +1151,7 @@ def run(ctx):
         raise Vacuity("MCMsa: no final state")
     # observed: every input set in the bounds through the real align_multiple, default settings
     res, ostates = helpers.dump_states(ctx, "MCMsaObs", f"MCMsaObs{tier}.cfg", stage="S2-msa-inputs", timeout=600)
-    osets = sorted({json.dumps(s["inputs"]) for s in ostates})
+    osets = sorted({json.dumps([s["inputs"], s["objs"]]) for s in ostates})
     oitems = [{"sets": [json.loads(x) for x in ch]} for ch in helpers.chunked(osets, 50)]
     ores = helpers.run_pool(ctx, "harness.drivers.c11:exec_msa_observed", oitems, stage="S2-msa-observed", item_timeout=120)
     observed = [e for r in ores for e in r.get("events", [])]
@@ -1084,6 +1165,18 @@ def run(ctx):
     ctx.nontrivial += sum(1 for e in allmsa if e["op"] == "msa" and
                           (len(e["merges"]) >= 2 or any(GAP in c for m in e["merges"] for c in m[2])))
     nobs_ok = sum(1 for e in observed if e["op"] == "msa")
+
+    def shared_and_gapped(e):
+        # one object at several positions AND a merge that inserts a gap: the runs on which
+        # "the rows are the caller's objects" and "the rows are copies" differ
+        return (e["op"] == "msa" and any(o != k + 1 for k, o in enumerate(e["objs"]))
+                and any(GAP in c for m in e["merges"] for c in m[2]))
+    nshared = sum(1 for e in forced if shared_and_gapped(e))
+    ctx.cov.update({"s2_msa_forced_shared_object_with_gap": nshared,
+                    "s2_msa_observed_shared_object": sum(1 for e in observed if e["op"] == "msa" and
+                                                         e["objs"] != no_sharing(len(e["objs"])))})
+    if forced and nshared == 0:
+        raise Vacuity("MCMsa: no forced behaviour with a shared input object and a gapped merge")
     ctx.cov.update({"s2_msa_behaviours": nfinals, "s2_msa_forced_executed": len(forced),
                     "s2_msa_observed_input_sets": len(ostates), "s2_msa_observed_ok": nobs_ok,
                     "s2_msa_observed_documented_refusals": refused,
@@ -1126,6 +1219,8 @@ def run(ctx):
     if need - set(per_kind):
         raise Vacuity(f"S3: event kinds never recorded: {sorted(need - set(per_kind))}")
     ctx.cov["s3_msa_documented_refusals"] = sum(r.get("refused", 0) for r in tres if r)
+    ctx.cov["s3_msa_shared_object"] = sum(1 for t in traces for e in t if e["op"] == "msa" and
+                                          e["objs"] != no_sharing(len(e["objs"])))
     if sum(1 for t in traces for e in t if e["op"] == "msa" and e["merges"]) == 0:
         raise Vacuity("S3: no align_multiple run with observed merges")
     for t in traces[:1]:
@@ -1150,6 +1245,6 @@ def run(ctx):
 
 MANIFEST = {
     "technique": "TLA+ specifications of alignment traces and their conversions, of the CIGAR writer/reader and of the progressive merge machine (specs/C11) model-checked by TLC; every enumerated alignment / option set / CIGAR / merge history executed against the real API; recorded random executions re-computed by TLC",
-    "level_text": "TLC checks the conversion laws (gapped strings / code and symbol matrices / FASTA and back = renumbered aligned part, identity on complete traces; terminal-gap interval = set of non-terminal columns; flag-driven gap scan = runs; Read(Write(A, opts), pos) = Normalise(A, opts) for every option combination; Write(Read(c)) = c on the writer's image; group invariants and postcondition of the progressive merge machine) on all pairwise traces over lengths <= 3 (jumps allowed), three-row traces over short rows, all CIGARs with <= 3 operations and all merge histories of <= 3 sequences; every enumerated case is then executed against the real functions in crash-isolated processes and compared with TLC's values, including align_multiple forced through every merge history (guide tree, distance matrix and rebound align_optimal); random alignments (<= 5 rows, <= 12 columns), CIGARs and sequence sets (2-8 sequences) are recorded from the real API and re-computed by TLC.",
+    "level_text": "TLC checks the conversion laws (gapped strings / code and symbol matrices / FASTA and back = renumbered aligned part, identity on complete traces; terminal-gap interval = set of non-terminal columns; flag-driven gap scan = runs; Read(Write(A, opts), pos) = Normalise(A, opts) for every option combination; Write(Read(c)) = c on the writer's image; group invariants and postcondition of the progressive merge machine) on all pairwise traces over lengths <= 3 (jumps allowed), three-row traces over short rows, all CIGARs with <= 3 operations and all merge histories of <= 3 sequences; every enumerated case is then executed against the real functions in crash-isolated processes and compared with TLC's values, including align_multiple forced through every merge history (guide tree, distance matrix and rebound align_optimal) under every sharing pattern of the input objects (equal sequences passed as one and the same object), with the caller's objects compared before and after the call; random alignments (<= 5 rows, <= 12 columns), CIGARs and sequence sets (2-8 sequences) are recorded from the real API and re-computed by TLC.",
     "level_note": "Bounded: exhaustive only inside the stated bounds; beyond them only recorded executions. Which pairwise alignment align_multiple chooses is C08's subject: the machine accepts any global trace. Exact gap placement of align_multiple, order = tree leaf order and the merge replay are diagnostics (the property states only the postcondition). Row selections may leave all-gap columns (ValidSubTrace); bare integer indices, negative-step column selections, non-contiguous traces for CIGAR and E-value statistics are outside the domain. Trusted: TLC, the TLA+ value parser, the projections, numpy. multiple.pyx cannot be recompiled here (no Cython).",
 }
